@@ -744,20 +744,24 @@ fn function_doc(trivia: &Trivia, function: &Function) -> Doc {
     }
 }
 
-/// Render a spawn (`@f`, `@~`, `@{ … }`, `@('int) { … }`). An inline spawned function must use the
-/// `@`-sugar forms — the parser does not accept `@#…` — so a function head is emitted as `@{ body }`
-/// or `@(type) { body }` (the parenthesised arm accepts any type).
+/// Render a spawn (`@f`, `@~`, `@{ … }`, `@('int) { … }`). An inline spawned function uses the
+/// `@`-sugar forms: a function head is emitted as `@{ body }` or `@(type) { body }` (the
+/// parenthesised arm accepts any type). The sugar has no place for type parameters or a return type
+/// and needs a body, so a function with those, or without a body, is spawned as any other term: `@#…`.
 fn spawn_doc(trivia: &Trivia, func: &Term) -> Doc {
     match func {
-        Term::Function(function) => {
-            let head = match &function.parameter_type {
+        Term::Function(Function {
+            type_parameters,
+            parameter_type,
+            return_type: None,
+            body: Some(body),
+            ..
+        }) if type_parameters.is_empty() => {
+            let head = match parameter_type {
                 None => "@".to_string(),
                 Some(parameter_type) => format!("@({}) ", render_type(parameter_type)),
             };
-            match &function.body {
-                None => pretty::text(head),
-                Some(body) => pretty::concat(vec![pretty::text(head), block_doc(trivia, body)]),
-            }
+            pretty::concat(vec![pretty::text(head), block_doc(trivia, body)])
         }
         // Any other primary can be spawned (`@f`, `@~`, but also `@[f, x]`, `@"s"`, `@@f`, `@!`), so
         // containers go through `term_doc` like everywhere else.
